@@ -22,7 +22,7 @@ RULE = (
     "the second pass, and two inputs nested 6 levels below / above the depth at which a fresh interpreter starts to answer "
     "'too many nested ...'). Every history and every pair of threads starts in a forked copy of a process that has imported "
     "the library and parsed nothing (recursion limit pinned to 3000 in every process, calls made on a fresh thread). "
-    "(1) Histories: every sequence of pool calls up to the plain bound; one long history in a single process in which every "
+    "(0) Every pool call in four fresh interpreters under four hash seeds: equal outcomes. (1) Histories: every sequence of pool calls up to the plain bound; one long history in a single process in which every "
     "ordered pair of calls occurs consecutively; and breadth-first searches (one per first call) whose state is the "
     "canonical fingerprint of the library's process-global state (module / class attributes, defaults, closures, singleton "
     "nodes, lru_cache keys and cached values) expanded once per state up to the BFS depth; on every transition the outcome must equal the outcome of the same call in a fresh interpreter (computed "
@@ -158,10 +158,31 @@ def expected() -> list[list]:
             if p.returncode != 0:
                 raise RuntimeError("fresh interpreter failed: " + se[-500:])
             outs[seed].append(json.loads(so.strip().splitlines()[-1]))
-        if outs["0"] != outs["4711"]:
-            raise RuntimeError("fresh-interpreter outcomes differ between hash seeds")
+        # two fresh interpreters that disagree on a call: the outcome is no function of the text (reported as a violation
+        # of its own by the 'fresh' cases; histories and schedules then compare against the first of the two)
+        NONDET[:] = [i for i in range(len(POOL)) if outs["0"][i] != outs["4711"][i]]
         _EXPECTED = outs["0"]
     return _EXPECTED
+
+
+NONDET: list[int] = []
+
+
+def check_fresh(i: int, acc: Any) -> None:
+    """The same call in four fresh interpreters (four hash seeds): all outcomes must be equal."""
+    procs = [_fresh(POOL[i], seed) for seed in ("0", "4711", "1", "2")]
+    outs = []
+    for p in procs:
+        so, se = p.communicate(timeout=120)
+        if p.returncode != 0:
+            raise RuntimeError("fresh interpreter failed: " + se[-500:])
+        outs.append(json.loads(so.strip().splitlines()[-1]))
+        acc.ran()
+    if any(o != outs[0] for o in outs[1:]):
+        other = next(o for o in outs[1:] if o != outs[0])
+        acc.violation(f"FRESH interpreters disagree on one call ({outs[0][0]} / {other[0]}) call={_name(i)}", {"fresh": i}, {"first": _short(outs[0]), "other": _short(other)})
+    else:
+        acc.count("fresh-agree")
 
 
 _FRESH_CODE = (
@@ -224,7 +245,7 @@ def units(tier: str) -> list[tuple]:
     TIER = tier
     expected()  # computed once in the parent; forked workers inherit it
     n = len(POOL)
-    us: list[tuple] = []
+    us: list[tuple] = [("fresh", i) for i in range(n)]
     depth = 2 if tier == "quick" else 3
     for i in range(n):
         us.append(("hist", i, depth))
@@ -256,6 +277,9 @@ def units(tier: str) -> list[tuple]:
 
 def cases(unit: tuple) -> Iterator[dict]:
     k = unit[0]
+    if k == "fresh":
+        yield {"fresh": unit[1]}
+        return
     if k == "hist":
         first, depth = unit[1], unit[2]
         yield {"hist": [first]}
@@ -531,6 +555,9 @@ def check_case(case: dict, acc: Any) -> None:
     reproduces exactly what was explored; the 'chain' case is the one long history in a single process.)"""
     pin_limit()
     expected()
+    if "fresh" in case:
+        check_fresh(case["fresh"], acc)
+        return
     if "bfs" in case:
         bfs(case["bfs"], acc, case)  # forks one child per history itself
         return
